@@ -14,6 +14,8 @@ ASSUMPTIONS = [
     "True/False == 1/0 identification are left aside; floats compare within the documented isclose tolerance",
     "generation must not draw: the random module is replaced by a stub that raises on any draw",
     "uuid/datetime/date leaves from menus; refused kinds from the 10-member zoo ZOO_UNCONVERTIBLE",
+    "numeric.mix: bool/float/int members that are == to each other (True/1.0/1, False/0.0/0) from menus, run with the real "
+    "functools.lru_cache (CrossHair normally bypasses caches) so that state hidden in a cache is visible",
     "float leaves: bug-hunting only (isclose over two symbolic doubles is beyond z3's reach for a proof)",
 ]
 BOUNDS = "fixed value shapes, symbolic leaves/lengths/flags; strings and bytes <= 2"
@@ -27,16 +29,34 @@ acc = same(w, v)
 return (why == ""), (why or ("equal" if acc else "different"))
 """
 
+BODY_CONCRETE = """
+with notrace():       # every parameter is a concrete menu member here
+    v = {v}
+    w = {w}
+    why = native_problem(v, w)
+    acc = same(w, v)
+return (why == ""), (why or ("equal" if acc else "different"))
+"""
+
 H = []
 
 
-def add(name, params, v, w, pre=(), covers=("equal", "different"), timeout=60, hunt=False, kf=None):
-    H.append(dict(name=name, params=params, v=v, w=w, pre=list(pre), covers=covers, timeout=timeout, hunt=hunt, kf=kf or {}))
+def add(name, params, v, w, pre=(), covers=("equal", "different"), timeout=60, hunt=False, kf=None, real_lru_cache=False, setup="",
+        concrete=False):
+    H.append(dict(name=name, params=params, v=v, w=w, pre=list(pre), covers=covers, timeout=timeout, hunt=hunt, kf=kf or {},
+                  real_lru_cache=real_lru_cache, setup=setup, concrete=concrete))
 
 
 add("scalar", "v: %s, w: %s" % (NOFLOAT, WILD), "v", "w", [SB.format("v"), SB.format("w")])
 add("float", "v: float, w: float", "v", "w", hunt=True, kf={"F13": "v == v"})
 add("float.vs.int", "v: float, w: int", "v", "w", covers=("different",), kf={"F13": "v == v"})
+add("numeric.mix", "j: int, bi: int, fi: int, ii: int, ui: int",
+    "([NB[bi], NF[fi], NI[ii]], [NF[fi], NB[bi], NI[ii]], [NI[ii], NF[fi], NB[bi]], {'e': NB[bi], 'r': NF[fi]}, {'r': NF[fi], 'e': NB[bi]})[j]",
+    "([NB[bi], NF[fi], NI[ii]], [NF[fi], NB[bi], NI[ii]], [NI[ii], NF[fi], NB[bi]], {'e': NB[bi], 'r': NF[fi]}, {'r': NF[fi], 'e': NB[bi]})[j]",
+    ["0 <= j <= 4", "0 <= bi <= 1", "0 <= fi <= 3", "0 <= ii <= 2", "0 <= ui <= 6"], covers=("equal",), real_lru_cache=True,
+    setup="NB, NF, NI = (True, False), (0.0, 1.0, 2.5, -1.0), (0, 1, -1)\nj, bi, fi, ii, ui = conc(j, 4), conc(bi, 1), conc(fi, 3), conc(ii, 2), conc(ui, 6)\n"
+          "with notrace():\n    reset_module_state()\n    from_native((None, True, False, 1.0, 0.0, 1, 0)[ui])    # an earlier, unrelated conversion\n",
+    concrete=True)
 add("uuid", "i: int, j: int", "pick(UUIDS4, i)", "pick(UUID_VALUES, j)")
 add("datetime", "i: int, j: int", "pick(DATETIMES + DATES, i)", "pick(DT_VALUES, j)")
 add("list.flat", "n: int, i0: int, s0: str, m: int, j0: int, t0: str, u: " + WILD, "mklist(n, i0, s0, None)", "mklist(m, j0, t0, u)",
@@ -74,8 +94,9 @@ return False, "converted"
 def harnesses(tier, seed, active_kf=()):
     out = []
     for e in H:
-        out.append(mk("C14." + e["name"], e["params"], BODY.format(v=e["v"], w=e["w"]), covers=e["covers"], pre=e["pre"],
-                      timeout=e["timeout"], prelude=PRELUDE, functions=FUNCS, bounds=BOUNDS, meta={"hunt": e["hunt"]},
+        out.append(mk("C14." + e["name"], e["params"], e["setup"] + (BODY_CONCRETE if e["concrete"] else BODY).format(v=e["v"], w=e["w"]), covers=e["covers"], pre=e["pre"],
+                      timeout=e["timeout"], prelude=PRELUDE, functions=FUNCS, bounds=BOUNDS,
+                      meta={"hunt": e["hunt"], "real_lru_cache": e["real_lru_cache"]},
                       kf=e["kf"], active_kf=active_kf, cover_timeout=60))
     for name, v in (("zoo.root", "z"), ("zoo.in.list", "[i0, z]"), ("zoo.in.dict", "{'a': i0, 'b': [z]}"),
                     ("zoo.deep", "[[{'k': z}], i0]")):
